@@ -161,7 +161,18 @@ static int do_async(int g, int depth, uint64_t rnd)
 	atomic_fetch_add(&g_pending, 1);
 	vrt_api("CallAsync", g_objs[g], tok, depth, g);
 	if (rnd & 1) dispatch_group_async_f(g_grp[g], q, it, item_func);
-	else dispatch_group_async(g_grp[g], q, ^{ item_body(it); });
+	else if (((rnd >> 5) & 3) == 0) dispatch_group_async(g_grp[g], q, ^{ item_body(it); });
+	else {
+		/* block objects with private data, every flavour of their creation (the continuation set-up of these is a path of
+		 * its own: _dispatch_continuation_init_slow; seed C07-5) */
+		static const dispatch_block_flags_t fl[] = { 0, DISPATCH_BLOCK_BARRIER, DISPATCH_BLOCK_DETACHED, DISPATCH_BLOCK_ASSIGN_CURRENT,
+				DISPATCH_BLOCK_NO_QOS_CLASS, DISPATCH_BLOCK_INHERIT_QOS_CLASS, DISPATCH_BLOCK_ENFORCE_QOS_CLASS };
+		unsigned k = (unsigned)((rnd >> 7) % 9);
+		dispatch_block_t b = k < 7 ? dispatch_block_create(fl[k], ^{ item_body(it); }) :
+				dispatch_block_create_with_qos_class(k == 7 ? 0 : DISPATCH_BLOCK_ENFORCE_QOS_CLASS, k == 7 ? QOS_CLASS_UTILITY : QOS_CLASS_USER_INITIATED, 0, ^{ item_body(it); });
+		dispatch_group_async(g_grp[g], q, b);
+		_Block_release(b);
+	}
 	vrt_api("RetAsync", g_objs[g], tok, depth, g);
 	atomic_fetch_or(&g_entered[g], 1ull << tok);
 	return tok;
